@@ -27,6 +27,7 @@ type C12Case struct {
 	Xff      []string `json:"xff"`
 	Scheme   string   `json:"scheme"`
 	Creds    string   `json:"creds"`
+	Other    string   `json:"other"` // class of another option the same target carries ("" = none)
 	Pre      int      `json:"pre"`  // filler hops in front of the judged elements
 	Suf      int      `json:"suf"`  // filler hops behind them
 	Fill     string   `json:"fill"` // address class of the fillers
@@ -172,7 +173,7 @@ func (c *C12Case) Num() int64 {
 		return c.N
 	}
 	h := Hash([]byte(c.CfgKey() + "|" + c.Proto + "|" + c.Peer + "|" + strings.Join(c.Xff, ",") + "|" + c.Creds +
-		fmt.Sprintf("|%d|%d|%s", c.Pre, c.Suf, c.Fill)))
+		fmt.Sprintf("|%d|%d|%s|%s", c.Pre, c.Suf, c.Fill, c.Other)))
 	n := int64((h ^ uint64(Seed())*0x9e3779b97f4a7c15) >> 1)
 	if n == 0 {
 		n = 1
@@ -213,7 +214,43 @@ func (c *C12Case) ChainText(cc *C12Conc) string {
 
 // CfgKey identifies the route configuration of a case.
 func (c *C12Case) CfgKey() string {
-	return strings.Join(c.Allow, ",") + "|" + strings.Join(c.Deny, ",") + "|" + c.Scheme
+	return strings.Join(c.Allow, ",") + "|" + strings.Join(c.Deny, ",") + "|" + c.Scheme + "|" + c.Other
+}
+
+// C12OtherOpt: the other options of a target, by class (Access_MC!MCOthersAll).  The valid ones do not
+// change what a proxied request looks like to the harness's upstream.
+var C12OtherOpt = map[string]string{
+	"":               "",
+	"strip":          "strip=/c12-not-a-prefix",
+	"hostdst":        "host=dst",
+	"tlsskip":        "tlsskipverify=true",
+	"redirect-alpha": "redirect=3O1", // letter O
+	"redirect-range": "redirect=200", // not a 3xx code
+	"proto-unknown":  "proto=gopher",
+	"unknown-option": "colour=blue",
+}
+
+// C12OtherValid: the documented, well-formed ones (Access_MC!MCOthersValid)
+var C12OtherValid = map[string]bool{"": true, "strip": true, "hostdst": true, "tlsskip": true}
+
+// CaseOpts renders all options of the case's target; the other option goes first or last (the option
+// list is a set).
+func (cc *C12Conc) CaseOpts(c *C12Case, scheme bool) string {
+	sch := ""
+	if scheme {
+		sch = c.Scheme
+	}
+	o := cc.Opts(c.Allow, c.Deny, sch)
+	x := C12OtherOpt[c.Other]
+	switch {
+	case x == "":
+		return o
+	case o == "":
+		return x
+	case len(c.Allow)%2 == 0:
+		return x + " " + o
+	}
+	return o + " " + x
 }
 
 // HostPort renders an address as a RemoteAddr.
@@ -390,7 +427,7 @@ func (cc *C12Conc) Referee(c *C12Case) (may, must bool, err error) {
 	}
 	norules := !al.given && !dl.given
 	clean := !(al.given && dl.given) && !al.malformed && !dl.malformed
-	must = norules || (clean && may && !zoned)
+	must = C12OtherValid[c.Other] && (norules || (clean && may && !zoned))
 	return may, must, nil
 }
 
@@ -520,6 +557,9 @@ func (c *C12Case) Cause(style string, probe func(style string, stripZones, noFil
 		if !ok && (c.CfgClass() == "allow" || c.CfgClass() == "deny") {
 			return name
 		}
+	}
+	if c.Other != "" && (c.CfgClass() == "allow" || c.CfgClass() == "deny") {
+		return "other-option:" + c.Other // the rules are in order and the request is plain: the other option is what is unusual
 	}
 	return "rules:" + c.CfgClass()
 }
